@@ -6,6 +6,9 @@
 package main
 
 import (
+	"github.com/opentracing/opentracing-go"
+	"github.com/opentracing/opentracing-go/mocktracer"
+
 	"bytes"
 	"context"
 	"encoding/json"
@@ -63,6 +66,7 @@ type InputCase struct {
 	OpCtx                bool     `json:"op_ctx"`
 	Debug                bool     `json:"debug,omitempty"`      // the transport dumps requests and responses (Runtime.Debug)
 	BodyFault            string   `json:"body_fault,omitempty"` // scripted failure of the response body stream
+	Via                  string   `json:"via,omitempty"`        // "" | "opentracing" | "opentelemetry": Submit goes through the tracing decorator (active only with an operation context)
 	RtCtx                string   `json:"rt_ctx"`               // "set" | "nil"
 	Default              string   `json:"default_media_type"`
 	Headers              []string `json:"-"`
@@ -269,7 +273,18 @@ func checkInput(c InputCase) (class, what string) {
 				class = "panic"
 			}
 		}()
-		res, err = rt.Submit(op)
+		var tr runtime.ClientTransport = rt
+		switch c.Via {
+		case "opentracing":
+			tr = rt.WithOpenTracing()
+			if op.Context != nil {
+				// a parent span in the operation's context is what makes the decorator create a client span
+				op.Context = opentracing.ContextWithSpan(op.Context, mocktracer.New().StartSpan("parent"))
+			}
+		case "opentelemetry":
+			tr = rt.WithOpenTelemetry()
+		}
+		res, err = tr.Submit(op)
 	}()
 	if class == "panic" {
 		return class, err.Error()
@@ -753,6 +768,12 @@ func main() {
 									continue // the default media type only matters when the header is absent
 								}
 								cases = append(cases, InputCase{Kind: "input", CT: ct, Registry: rg, Status: st, OpClient: oc, OpCtx: octx, RtCtx: rctx, Default: d})
+								if rctx == "set" && (d == "" || ct.Media == "<default>") {
+									// the tracing decorators must be transparent (they act only when the operation has a context)
+									for _, via := range []string{"opentracing", "opentelemetry"} {
+										cases = append(cases, InputCase{Kind: "input", CT: ct, Registry: rg, Status: st, OpClient: oc, OpCtx: octx, RtCtx: rctx, Default: d, Via: via})
+									}
+								}
 								if oc && st == 200 && d == "" {
 									cases = append(cases, InputCase{Kind: "input", CT: ct, Registry: rg, Status: st, OpClient: true, OpClientNilTransport: true, OpCtx: octx, RtCtx: rctx, Default: d})
 								}
@@ -772,6 +793,9 @@ func main() {
 							continue
 						}
 						cases = append(cases, InputCase{Kind: "input", CT: ct, Registry: "default", Status: st, OpClient: oc, RtCtx: "set", Debug: dbg, BodyFault: bf})
+						for _, via := range []string{"opentracing", "opentelemetry"} {
+							cases = append(cases, InputCase{Kind: "input", CT: ct, Registry: "default", Status: st, OpClient: oc, OpCtx: true, RtCtx: "set", Debug: dbg, BodyFault: bf, Via: via})
+						}
 					}
 				}
 			}
